@@ -93,6 +93,7 @@ static int nst;
  * forgets to initialise reads as all-ones / 1 / ... instead of whatever the allocator left there */
 static int cfg_fill = -1;
 static int cfg_probe_eintr, probe_calls;
+static long long cfg_epoch0 = -1;
 void *__wrap_malloc(size_t n)
 {
 	void *p = malloc(n);	/* only the library's references are redirected here */
@@ -1032,6 +1033,7 @@ int main(int argc, char **argv)
 				else if (!strncmp(c, "eintr=", 6)) { if (neintr < 64) eintr_at[neintr++] = atoi(c + 6); }
 				else if (!strncmp(c, "fill=", 5)) cfg_fill = atoi(c + 5) & 0xff;
 				else if (!strncmp(c, "probe-eintr=", 12)) cfg_probe_eintr = atoi(c + 12);
+				else if (!strncmp(c, "epoch0=", 7)) cfg_epoch0 = atoll(c + 7);
 				else if (!strncmp(c, "waitlimit=", 10)) wait_limit = atoi(c + 10);
 				else if (!strncmp(c, "cblimit=", 8)) cb_limit = atoi(c + 8);
 				else { logf_("HARNESS-ERROR cfg %s\n", c); finish(NULL); }
@@ -1043,6 +1045,7 @@ int main(int argc, char **argv)
 			else unsetenv("IV_EXCLUDE_POLL_METHOD");
 			in_library = 1;
 			iv_init();
+			if (cfg_epoch0 >= 0) iv_get_state()->task_epoch = (uint32_t)cfg_epoch0;	/* a loop that has been running for that many rounds */
 			inited = 1;
 			logf_("CFG method=%s timerfd=%d pwait2=%d\n", iv_poll_method_name(), !cfg_notimerfd, 1);
 		}
@@ -1116,6 +1119,7 @@ int main(int argc, char **argv)
 				ktimer_fd = -1;
 				ktimer_armed = 0;
 				iv_init();
+				if (cfg_epoch0 >= 0) iv_get_state()->task_epoch = (uint32_t)cfg_epoch0;
 				logf_("CFG method=%s timerfd=%d pwait2=%d\n", iv_poll_method_name(), !cfg_notimerfd, 1);
 			}
 		} else {
